@@ -127,6 +127,7 @@ type aofRun struct {
 	randKeys              map[string]bool // db/key touched by a write command whose effect is random by design (SPOP)
 	skipped               int
 	hasRewrite            bool
+	concWriters           bool // a REWRITEAOF ran concurrently with writers since the last recovery
 }
 
 var runCounter atomic.Int64
@@ -299,6 +300,7 @@ func (a *aofRun) recover(image string, minIdx int, extra []map[string]string, ho
 	if inflight || matched >= minIdx {
 		a.states = []map[string]string{a.dump()}
 		a.syncedUp = 0
+		a.concWriters = false
 		return true
 	}
 	want := prev[len(prev)-1]
@@ -320,6 +322,14 @@ func (a *aofRun) recover(image string, minIdx int, extra []map[string]string, ho
 			a.fail(lens, fmt.Sprintf("%s: restored dataset differs from an admissible state only in ways explained by [%s] (sync=%s): %s", how, lens, a.p.SK("sync"), DiffData(got, strip(c), "restored", "expected", 5)))
 			return false
 		}
+	}
+	if a.concWriters {
+		what := "not-a-state"
+		if matched >= 0 {
+			what = "lost"
+		}
+		a.fail("concurrent-writer/"+what, fmt.Sprintf("%s: a write acknowledged while REWRITEAOF was running is not restored as acknowledged (restored = state #%d of %d the server passed through, admissible from #%d, sync=%s): %s", how, matched, len(prev), minIdx, a.p.SK("sync"), diff))
+		return false
 	}
 	if a.rewriteCrashSite != "" {
 		a.fail("rewrite-crash@"+a.rewriteCrashSite, fmt.Sprintf("%s: after a crash at %s during REWRITEAOF the data directory no longer restores to a state the server passed through (%d states, admissible from #%d, sync=%s): %s",
@@ -635,6 +645,14 @@ func (a *aofRun) runSeq() {
 			}
 		default: // command or rewrite
 			args := op.Args
+			if op.Kind == "rewrite" && p.Profile == "conc" && arm == nil {
+				n, ok := a.rewriteConc(i)
+				if !ok {
+					return
+				}
+				i += n
+				continue
+			}
 			if op.Kind == "rewrite" {
 				args = []string{"REWRITEAOF"}
 				a.rewrites++
